@@ -3,11 +3,19 @@
     [Gen_hashsums.v] is written at check time by [tools/py2coq.py]; this committed file is
     compiled against it (NOT part of [_CoqProject]).  The digest function [hashsum] (hashlib)
     is an opaque parameter of the translated function.  Equivalence with [qualified] of
-    [Util/DirHash.v]; C19's [prefix_distinct] restated for the translated function. *)
-From Coq Require Import List String Ascii NArith ZArith Bool.
+    [Util/DirHash.v]; C19's [prefix_distinct] restated for the translated function.
+
+    [hashsum] itself: the table of constructors [_hash_alg], the constructor call and the
+    hasher's [block_size] / [update] / [hexdigest] are parameters (an abstract streaming
+    hash); the argument is a stream ([PyLib.py_stream]: content + hints that make reads
+    short); the read loop is [PyLib.py_read_loop].  [gen_hashsum_equiv]: on full reads it is
+    [DirHash.hashsum] (the fold over [chunks n]); [gen_hashsum_eq_oneshot]: for any block
+    size and any cutting of the stream by short reads it is the one-shot digest. *)
+From Coq Require Import List String Ascii NArith ZArith Bool Lia.
 From MV Require Import Util.DirHash Properties.C19.
 From MV Require Import Gen.PyLib Gen.PyLibProofs.
 From Gen Require Import Gen_hashsums.
+Import ListNotations.
 Local Open Scope string_scope.
 
 Theorem gen_qualified_equiv : forall (Bytes : Type) (hs : Bytes -> string -> string) data a,
@@ -24,3 +32,121 @@ Theorem gen_prefix_distinct : forall (Bytes : Type) (hs : Bytes -> string -> str
   qualified_hashsum Bytes hs data (alg_name a) <> symlink_prefix ++ x.
 Proof. intros. rewrite gen_qualified_equiv. apply C19_prefix_distinct. Qed.
 Print Assumptions gen_prefix_distinct.
+
+(** ** The read loop of [hashsum] *)
+
+Section Loop.
+  Variables (HS : Type) (bsz : HS -> Z) (upd : HS -> list ascii -> HS).
+  Hypothesis bsz_upd : forall s c, bsz (upd s c) = bsz s.
+
+  Lemma firstn_min {X} n (l : list X) : firstn (Nat.min n (List.length l)) l = firstn n l.
+  Proof.
+    destruct (Nat.le_gt_cases n (List.length l)) as [H|H].
+    - rewrite Nat.min_l by exact H. reflexivity.
+    - rewrite Nat.min_r by lia. rewrite !firstn_all2 by lia. reflexivity.
+  Qed.
+
+  Lemma skipn_min {X} n (l : list X) : skipn (Nat.min n (List.length l)) l = skipn n l.
+  Proof.
+    destruct (Nat.le_gt_cases n (List.length l)) as [H|H].
+    - rewrite Nat.min_l by exact H. reflexivity.
+    - rewrite Nat.min_r by lia. rewrite !skipn_all2 by lia. reflexivity.
+  Qed.
+
+  Lemma loop_go_S {X} fuel (size : X -> Z) step d s :
+    py_read_loop_go (S fuel) size step d s =
+    let '(c, d') := py_read d (size s) in
+    match c with [] => (s, d') | _ => py_read_loop_go fuel size step d' (step s c) end.
+  Proof. reflexivity. Qed.
+
+  (** Full reads (no hints): the blocks are [chunks n]. *)
+  Lemma loop_full n : n > 0 -> forall fuel bs s,
+    List.length bs <= fuel -> bsz s = Z.of_nat n ->
+    fst (py_read_loop_go (S fuel) bsz upd (MkStream bs []) s) = fold_left upd (chunks_fuel fuel n bs) s.
+  Proof.
+    intros Hn. induction fuel as [|f IH]; intros bs s Hl Hs.
+    - destruct bs; [|simpl in Hl; lia].
+      rewrite loop_go_S. unfold py_read. cbn [st_rest st_short]. rewrite firstn_nil. reflexivity.
+    - rewrite loop_go_S. cbn [chunks_fuel]. unfold py_read. cbn [st_rest st_short tl].
+      rewrite Hs. assert (E : (Z.of_nat n <? 0)%Z = false) by (apply Z.ltb_ge; lia). rewrite E.
+      rewrite Nat2Z.id, firstn_min, skipn_min.
+      destruct (firstn n bs) as [|a c] eqn:F; [reflexivity|].
+      cbv beta iota zeta. cbn [fold_left]. rewrite IH.
+      + reflexivity.
+      + destruct bs as [|b bs]; [destruct n; discriminate F|].
+        destruct n as [|n]; [lia|]. cbn [skipn]. rewrite skipn_length. simpl in Hl. lia.
+      + rewrite bsz_upd. exact Hs.
+  Qed.
+
+  (** Any reads: some cutting of the content. *)
+  Lemma loop_any_cut : forall fuel bs hints s,
+    List.length bs < fuel -> bsz s <> 0%Z ->
+    exists cs, List.concat cs = bs /\
+               fst (py_read_loop_go fuel bsz upd (MkStream bs hints) s) = fold_left upd cs s.
+  Proof.
+    induction fuel as [|f IH]; intros bs hints s Hl Hs; [lia|].
+    rewrite loop_go_S. unfold py_read. cbn [st_rest st_short].
+    set (len := List.length bs).
+    set (full := if (bsz s <? 0)%Z then len else Nat.min (Z.to_nat (bsz s)) len).
+    set (k := match hints with [] => full | h :: _ => Nat.max (Nat.min h full) (Nat.min 1 full) end).
+    assert (Hfull : bs <> [] -> 1 <= full <= len).
+    { intros NE. assert (1 <= len) by (subst len; destruct bs; [congruence | simpl; lia]).
+      subst full. destruct (bsz s <? 0)%Z eqn:E; [lia|]. apply Z.ltb_ge in E.
+      assert (1 <= Z.to_nat (bsz s)) by lia. lia. }
+    assert (Hk : bs <> [] -> 1 <= k <= len).
+    { intros NE. specialize (Hfull NE). subst k. destruct hints; lia. }
+    destruct (firstn k bs) as [|a c] eqn:F; cbv beta iota zeta.
+    - exists []. split; [|reflexivity]. destruct bs as [|b bs]; [reflexivity|].
+      assert (NE : b :: bs <> []) by discriminate. specialize (Hk NE).
+      destruct k; [lia | discriminate F].
+    - assert (NE : bs <> []) by (intros ->; destruct k; discriminate F).
+      specialize (Hk NE).
+      destruct (IH (skipn k bs) (tl hints) (upd s (a :: c))) as (cs & C1 & C2).
+      + rewrite skipn_length. subst len. lia.
+      + rewrite bsz_upd. exact Hs.
+      + exists ((a :: c) :: cs). split.
+        * cbn [List.concat]. rewrite C1, <- F. apply firstn_skipn.
+        * exact C2.
+  Qed.
+End Loop.
+
+Theorem gen_hashsum_equiv :
+  forall (HS HC : Type) (bsz : HS -> Z) (upd : HS -> list ascii -> HS) (fin : HS -> string)
+         (new : HC -> HS) (tbl : string -> option HC) alg c n bs,
+    tbl alg = Some c -> (forall s x, bsz (upd s x) = bsz s) -> bsz (new c) = Z.of_nat n -> n > 0 ->
+    Gen_hashsums.hashsum HS HC bsz upd fin new tbl (MkStream bs []) alg
+    = inr (DirHash.hashsum HS (new c) upd fin n bs).
+Proof.
+  intros HS HC bsz upd fin new tbl alg c n bs Ht Hb Hn Hp.
+  unfold Gen_hashsums.hashsum. rewrite Ht. cbv zeta. unfold py_read_loop. cbn [st_rest].
+  destruct (py_read_loop_go _ _ _ _ _) as [h d] eqn:E.
+  apply (f_equal fst) in E. rewrite (loop_full HS bsz upd Hb n Hp) in E by (auto; lia).
+  cbn [fst] in E. subst h. reflexivity.
+Qed.
+Print Assumptions gen_hashsum_equiv.
+
+Theorem gen_hashsum_eq_oneshot :
+  forall (HS HC : Type) (bsz : HS -> Z) (upd : HS -> list ascii -> HS) (fin : HS -> string)
+         (new : HC -> HS) (tbl : string -> option HC) alg c bs hints,
+    (forall s x y, upd (upd s x) y = upd s (x ++ y)%list) -> (forall s, upd s [] = s) ->
+    tbl alg = Some c -> (forall s x, bsz (upd s x) = bsz s) -> bsz (new c) <> 0%Z ->
+    Gen_hashsums.hashsum HS HC bsz upd fin new tbl (MkStream bs hints) alg
+    = inr (oneshot HS (new c) upd fin bs).
+Proof.
+  intros HS HC bsz upd fin new tbl alg c bs hints Ha Hnil Ht Hb Hn.
+  unfold Gen_hashsums.hashsum. rewrite Ht. cbv zeta. unfold py_read_loop. cbn [st_rest].
+  destruct (py_read_loop_go _ _ _ _ _) as [h d] eqn:E.
+  apply (f_equal fst) in E. cbn [fst] in E.
+  destruct (loop_any_cut HS bsz upd Hb (S (List.length bs)) bs hints (new c)) as (cs & C1 & C2); [lia | exact Hn |].
+  assert (Hh : h = fold_left upd cs (new c)) by (rewrite <- E; exact C2).
+  rewrite Hh. apply f_equal.
+  exact (C19_any_cut HS (new c) upd fin Ha Hnil cs bs C1).
+Qed.
+Print Assumptions gen_hashsum_eq_oneshot.
+
+Theorem gen_hashsum_unsupported :
+  forall (HS HC : Type) bsz upd fin new (tbl : string -> option HC) d alg,
+    tbl alg = None ->
+    Gen_hashsums.hashsum HS HC bsz upd fin new tbl d alg = inl ("ValueError", "Unsupported hashsum: " ++ alg).
+Proof. intros. unfold Gen_hashsums.hashsum. rewrite H. reflexivity. Qed.
+Print Assumptions gen_hashsum_unsupported.
